@@ -58,7 +58,8 @@ def step(ctx, case):
     C02 = which in ('C02', 'both')
     C03 = which in ('C03', 'both')
 
-    conn = ConnectionImpl(0, 'A', None)
+    # which side of the connection the log was taken on (unknown / server / client) is no business of the object table: spread over the cases
+    conn = ConnectionImpl(0, 'A', [None, True, False][sum(map(ord, repr(case))) % 3])
     conn.db = AssocDict(conn.db)
     model = Model()
     model.ents.append((1, [Inc(DISP, True, 0.0, None, conn.display, True)]))
@@ -305,7 +306,7 @@ def long_reuse(ctx, case):
     from core.letter_id_generator import number_to_letter_id
     from core import util
     util.color_output = False
-    conn = ConnectionImpl(0, 'A', None)
+    conn = ConnectionImpl(0, 'A', ctx.choose([None, True, False], 'side'))
     conn.db = AssocDict(conn.db)
     i = ctx.fresh_int('id', SERVER_BASE if server else 2, 2 ** 32 if server else SERVER_BASE)
     t = 0
